@@ -1479,11 +1479,6 @@ theorem step_core (cfg : Cfg) (h0 : 0 ≤ cfg.timeout) (h1 : 0 ≤ cfg.retryDela
         refine ⟨fire_pending_rel cfg h0 h1 _ k r q _ hI.inv hq hp f6.1 (by rw [f1]; exact hI.rel.now) f3 f4 hseen hna hf, lateOk_of_none ?_⟩
         rw [(foldl_frame cfg _ _).2.2.2]; exact f6.2
 
-/-- no step of the run reports that the interpreter ran out of fuel -/
-def NoFuel (cfg : Cfg) : St → List (Env × Ev) → Prop
-  | _, [] => True
-  | st, (env, e) :: rest => Ob.badOp "fuel" ∉ (step cfg st env e).2 ∧ NoFuel cfg (step cfg st env e).1 rest
-
 theorem step_sound (cfg : Cfg) (h0 : 0 ≤ cfg.timeout) (h1 : 0 ≤ cfg.retryDelay) (st : St) (env : Env) (e : Ev) (m : MSt)
     (hI : StepInv cfg st m) (hfuel : Ob.badOp "fuel" ∉ (step cfg st env e).2) :
     StepInv cfg (step cfg st env e).1
